@@ -49,7 +49,7 @@ def main():
             res[own] = run_check(own)
             print("%s %s %s %s" % (sid, own, res[own]["verdict"], res[own]["what"][:150]))
             sys.stdout.flush()
-            if res[own]["verdict"] != "failing-input":
+            if res[own]["verdict"] != "failing-input" and not os.environ.get("SEED_OWN_ONLY"):
                 for p in ALL:
                     if p == own:
                         continue
